@@ -65,7 +65,30 @@ EditUnder(e, s) == IsPrefix(s, e.bp) \/ (e.bp = SubSeq(s, 1, Len(s) - 1) /\ e.in
 SameFw(a, b) ==
     a.k = b.k /\ (a.k = "err" \/ (a.k = "stmt" /\ a.p = b.p) \/ (a.k = "region" /\ a.bp = b.bp /\ a.start = b.start /\ a.n = b.n))
 
+\* an application of a strategy whose sites are EXPRESSIONS (inline): every candidate call carries a unique marker;
+\* marks = markers of the listed sites in listing order, gone = markers of the calls that no longer exist afterwards,
+\* efw = for every candidate call, the marker of what its forwarded expression cursor resolves to (-1: raised)
+ExprVerdict(r) ==
+    LET K == Len(r.marks)
+        M == SetOf(r.marks)
+        G == SetOf(r.gone)
+    IN
+    IF r.where >= 0 /\ r.where >= K THEN
+        (IF r.outcome = "TransformReferenceError" THEN "ok" ELSE "bad-index-accepted")
+    ELSE IF r.where = -1 THEN (IF r.outcome # "ok" THEN "ok" ELSE "negative-index-accepted")
+    ELSE IF r.outcome # "ok" THEN (IF r.where = -999 \/ r.outcome = "TransformDeclined" THEN "ok" ELSE "listed-site-rejected")
+    ELSE IF r.where >= 0 /\ r.marks[r.where + 1] \notin G THEN "site-not-touched"
+    ELSE IF r.where >= 0 /\ G # {r.marks[r.where + 1]} THEN "touched-another-site"
+    ELSE IF r.where = -999 /\ ~(M \subseteq G) THEN "a-site-not-rewritten"
+    ELSE IF r.where = -999 /\ ~(G \subseteq M) THEN "touched-unlisted-site"
+    ELSE IF M \cap SetOf(r.rmarks) # {} THEN "site-and-refusal"
+    ELSE IF SetOf(r.cand) # (M \cup SetOf(r.rmarks)) THEN "considered-not-accounted"
+    ELSE IF Cardinality(M) # K THEN "site-listed-twice"
+    ELSE IF \E i \in 1..Len(r.efw) : r.efw[i].r \notin {-1, r.efw[i].m} THEN "expr-forward-to-unrelated"
+    ELSE "ok"
+
 ApplyVerdict(r) ==
+    IF "kind" \in DOMAIN r /\ r.kind = "expr" THEN ExprVerdict(r) ELSE
     LET E == r.edits
         K == Len(r.sites)
         New(p) == CHOOSE j \in 1..Len(r.new) : r.new[j].p = p
@@ -89,8 +112,13 @@ ApplyVerdict(r) ==
     ELSE IF ~chain /\ \E i \in 1..Len(r.fw) : ~SameFw(r.fw[i].r, Forward(r.fw[i].p, E)) THEN "forward-differs-from-model"
     ELSE IF \E i \in 1..Len(r.fw) :
               LET f == r.fw[i].r  old == r.old[i] IN
-              /\ f.k = "stmt" /\ HasNew(f.p) /\ old.all # <<>>
+              /\ f.k = "stmt" /\ HasNew(f.p) /\ old.all # <<>> /\ old.p \notin SetOf(r.xr)
               /\ SetOf(r.new[New(f.p)].all) \cap SetOf(old.all) = {} THEN "forward-to-unrelated-statement"
+    \* a statement no edit replaced keeps its kind (and the name it assigns), even where its expressions were rewritten
+    ELSE IF ~chain /\ \E i \in 1..Len(r.fw) :
+              LET f == r.fw[i].r  old == r.old[i] IN
+              /\ f.k = "stmt" /\ HasNew(f.p) /\ FwdStmt(old.p, E).ok /\ FwdStmt(old.p, E).edit = 0
+              /\ r.new[New(f.p)].sig # old.sig THEN "forward-changes-statement-kind"
     ELSE IF \E i \in 1..Len(r.fw) :
               LET f == r.fw[i].r IN f.k = "stmt" /\ ~HasNew(f.p) THEN "forward-to-nothing"
     ELSE IF \E i \in 1..Len(r.fw) :
@@ -103,6 +131,7 @@ ApplyVerdict(r) ==
     ELSE IF ~chain /\ \E i \in 1..Len(r.old) :
               LET p == r.old[i].p  f == Forward(p, E) IN
               /\ ~(\E k \in 1..Len(E) : Covered(p, E[k]) \/ EditUnder(E[k], p))
+              /\ p \notin SetOf(r.xr)
               /\ f.k = "stmt" /\ HasNew(f.p) /\ r.new[New(f.p)].own # r.old[i].own THEN "untouched-changed"
     ELSE "ok"
 =============================================================================
